@@ -31,7 +31,18 @@ func main() {
 	}
 	repo := envOr("OBSA_REPO", "/repo")
 	verif := envOr("OBSA_VERIF", "/verif")
+	eng.NamesFile = envOr("OBSA_NAMES", verif+"/obsa/names.json")
 	switch os.Args[1] {
+	case "names":
+		// freeze the variable names the rules are written against (see eng/names.go)
+		eng.NamesFile = ""
+		p, err := eng.Load(repo, nil)
+		if err != nil {
+			fmt.Println(err)
+			os.Exit(1)
+		}
+		b, _ := json.Marshal(p.NamesSnapshot())
+		os.Stdout.Write(b)
 	case "check":
 		os.Exit(check(repo, verif, os.Args[2], os.Args[3]))
 	case "mutants":
@@ -71,6 +82,25 @@ func main() {
 			}
 		}
 		fmt.Printf("%d call sites\n", n)
+	case "renametest":
+		id := os.Args[2]
+		p, err := eng.Load(repo, nil)
+		if err != nil {
+			fmt.Println(err)
+			os.Exit(1)
+		}
+		c := eng.NewCtx(id, p)
+		props.Registry[id].Run(c, false)
+		baseOpen := map[string]bool{}
+		for _, o := range c.Obls {
+			if o.Status != eng.Discharged {
+				baseOpen[o.Key()] = true
+			}
+		}
+		r := renameTest(repo, id, c, baseOpen)
+		for _, a := range r["false_alarms"].([]string) {
+			fmt.Println("  ", a)
+		}
 	case "obls":
 		os.Exit(obls(repo, os.Args[2]))
 	case "manifest":
@@ -151,6 +181,9 @@ func check(repo, verif, id, tier string) (code int) {
 	}
 	c := eng.NewCtx(id, p)
 	pr.Run(c, tier == "thorough")
+	for _, r := range p.Renames {
+		c.Notes = append(c.Notes, "renamed variable mapped back to the name the rules were written against: "+r)
+	}
 	var extra map[string]any
 	if tier == "thorough" {
 		extra = map[string]any{}
@@ -185,6 +218,8 @@ func check(repo, verif, id, tier string) (code int) {
 		}
 		// (b) checker self-test on overlays of the current tree
 		extra["selftest"] = selftest(repo, verif, id, baseOpen)
+		// (c) neutral change: rename every variable of the analysed functions; the rules must stay silent
+		extra["neutral_rename"] = renameTest(repo, id, c, baseOpen)
 	}
 	return c.Finish(verif, tier, seed, time.Since(t0).Seconds(),
 		pr.Explanation+" NOT DECIDED: "+pr.NotDecided,
